@@ -41,7 +41,7 @@ Due == armed /\ ~stopped /\ expiry = now /\ ~inCb
 \* the callback is entered with arguments (n; a1, a2; kw): they must be the given ones
 Fire(n, a1, a2, kw) ==
   /\ Due
-  /\ <<n, a1, a2, kw>> = <<cfg.n, cfg.a1, cfg.a2, cfg.kw>>
+  /\ n = cfg.n /\ a1 = cfg.a1 /\ a2 = cfg.a2 /\ kw = cfg.kw
   /\ inCb' = TRUE /\ armed' = FALSE /\ nfire' = nfire + 1
   /\ UNCHANGED <<now, expiry, stopped, per, cfg>>
 
